@@ -74,6 +74,14 @@ Definition or_else {A} (r h : rd A) : rd A := fun s =>
   | x => x
   end.
 
+(** [err = r(); if err != nil && err != io.EOF { return err }]: io.EOF is
+    swallowed and [dflt] stands for the untouched destination *)
+Definition catch_eof {A} (r : rd A) (dflt : A) : rd A := fun s =>
+  match r s with
+  | RErr c s' => if c =? E_EOF then ROk dflt s' else RErr c s'
+  | x => x
+  end.
+
 (** [take l n]: the first [n] elements and the remainder, [None] when [l] is
     shorter; structural in [l] so that 32-bit [n] never becomes a [nat]. *)
 Fixpoint takeZ (l : list Z) (n : Z) {struct l} : option (list Z * list Z) :=
@@ -230,13 +238,8 @@ Definition parse_policy2 (sha3 : bool) : rd (list Z) :=
   | None => fail E_OTHER
   | Some sz =>
       (* hash := make([]byte, sz); err = binary.Read(buf, .., &hash); io.EOF is tolerated *)
-      let fin h := ret ([2; ver; alg; pt; sm] ++ le16s drc ++ [pc; ms; rs; hm; sg; r2] ++ fix_len32 h) in
-      fun s => match read_n sz s with
-               | ROk h s' => fin h s'
-               | RErr c s' => if c =? E_EOF then fin (repeat 0 (Z.to_nat sz)) s' else RErr c s'
-               | RPanic => RPanic
-               | RFuel => RFuel
-               end
+      h <- catch_eof (read_n sz) (repeat 0 (Z.to_nat sz)) ;;
+      ret ([2; ver; alg; pt; sm] ++ le16s drc ++ [pc; ms; rs; hm; sg; r2] ++ fix_len32 h)
   end.
 
 (** ParsePolicy: the version is read with a reader of its own, then the whole
@@ -290,11 +293,11 @@ Definition elt_pconf : rd (list Z) :=
 Definition elt_custom (fx : fixes) (size : Z) : rd (list Z) :=
   d1 <- read_le 4 ;; d2 <- read_le 2 ;; d3 <- read_le 2 ;; d4 <- read_le 2 ;; d5 <- read_n 6 ;;
   let n := size - 16 - 16 in
-  (if fx_custom_min fx && (n <? 0) then fail E_FIX else ret tt) ;;;
-  cap_guard fx n ;;;
-  alloc_chk n 1 ;;;
-  dt <- read_slice n ;;
-  ret ([d1; d2; d3; d4] ++ d5 ++ [lenZ dt] ++ dt).
+  if fx_custom_min fx && (n <? 0) then fail E_FIX else
+  (cap_guard fx n ;;;
+   alloc_chk n 1 ;;;
+   dt <- read_slice n ;;
+   ret ([d1; d2; d3; d4] ++ d5 ++ [lenZ dt] ++ dt)).
 
 (** parsePolicyElement: returns (Size, summary) *)
 Definition element (fx : fixes) : rd (Z * list Z) :=
@@ -642,6 +645,26 @@ Fixpoint hex_string (l : list Z) : outcome (list Z) :=
   | [] => Ok []
   end.
 
+(** the part of the format after the index: ":%X" *)
+Definition scan_tail (idx : Z) (l3 : list Z) : outcome (Z * list Z) :=
+  match match_lit [58] l3 with
+  | Ok l4 =>
+      match skip_space l4 with
+      | [] => Err E_EOF                      (* convertString: notEOF *)
+      | l5 =>
+          match hex_string l5 with
+          | Ok [] => Err E_OTHER             (* no hex data for %x string *)
+          | Ok v => Ok (idx, v)
+          | Err c => Err c
+          | Panic => Panic
+          | OutOfFuel => OutOfFuel
+          end
+      end
+  | Err c => Err c
+  | Panic => Panic
+  | OutOfFuel => OutOfFuel
+  end.
+
 (** fmt.Sscanf(line, "PCR-%02d:%X", &pcrIndex, &pcrValue) *)
 Definition sscanf_pcr (line : list Z) : outcome (Z * list Z) :=
   match match_lit [80; 67; 82; 45] line with
@@ -651,34 +674,16 @@ Definition sscanf_pcr (line : list Z) : outcome (Z * list Z) :=
       | [] => Err E_EOF                      (* scanInt: notEOF *)
       | c0 :: t0 =>
           (* width 2 counts the sign *)
-          let '(neg, l2, wid) := if (c0 =? 43) || (c0 =? 45) then (c0 =? 45, t0, 1) else (false, l1, 2) in
+          let signed := (c0 =? 43) || (c0 =? 45) in
+          let l2 := if signed then t0 else l1 in
           match l2 with
           | [] => Err E_EOF                  (* scanNumber: notEOF *)
           | d1 :: t1 =>
               if is_digit d1 then
-                let '(v, l3) :=
-                  match t1 with
-                  | d2 :: t2 => if (2 <=? wid) && is_digit d2 then ((d1 - 48) * 10 + (d2 - 48), t2) else (d1 - 48, t1)
-                  | [] => (d1 - 48, t1)
-                  end in
-                let idx := if neg then - v else v in
-                match match_lit [58] l3 with
-                | Ok l4 =>
-                    match skip_space l4 with
-                    | [] => Err E_EOF        (* convertString: notEOF *)
-                    | l5 =>
-                        match hex_string l5 with
-                        | Ok [] => Err E_OTHER  (* no hex data for %x string *)
-                        | Ok v => Ok (idx, v)
-                        | Err c => Err c
-                        | Panic => Panic
-                        | OutOfFuel => OutOfFuel
-                        end
-                    end
-                | Err c => Err c
-                | Panic => Panic
-                | OutOfFuel => OutOfFuel
-                end
+                let two := match t1 with d2 :: _ => negb signed && is_digit d2 | [] => false end in
+                let v := if two then (d1 - 48) * 10 + (hd 0 t1 - 48) else d1 - 48 in
+                let l3 := if two then tl t1 else t1 in
+                scan_tail (if c0 =? 45 then - v else v) l3
               else Err E_OTHER               (* expected integer *)
           end
       end
